@@ -375,6 +375,35 @@ def len_modes(ck, P):
     return
 
 
+def fast_refill(ck, P, rule, fns=None):
+    """The fast loops refill the bit buffer once per iteration and decode a length and a distance from it.  Before the
+    distance is decoded (code <= MAX_BITS = 15 bits, extra <= MAX_DIST_EXTRA_BITS = 13 bits) the buffer must hold 28 bits
+    or be refilled: the conditional refill's threshold has to be that constant sum - a smaller or data-dependent
+    threshold under-fills for second-level distance codes."""
+    n = 0
+    for path in (fns or (FAST, FAST_BACK)):
+        fn = P.fn(path)
+        if not ck.anchor("fn " + path, fn):
+            continue
+        ck.use_fn(fn)
+        refills = fn.live_calls(r"BitReader::refill$")
+        cond = []
+        for c in refills:
+            ss = [sig.sig(a, fn) for a in fn.dominating_atoms(c.bb)]
+            for s_ in ss:
+                if s_.rel == "Le" and "BitReader::bits_in_buffer" in s_.lo_calls and s_.hi_val is not None:
+                    cond.append((c, s_.hi_val + 0))
+        short = path.replace(Z, "")
+        n += len(cond)
+        # normalised form of `bits_in_buffer() < K` is `bits_in_buffer() <= K-1`
+        ok = bool(cond) and max(k + 1 for _, k in cond) >= 28
+        ck.decide(ok, rule, short + ":dist-refill", "conditional refill when fewer than %s bits are buffered" % sorted({k + 1 for _, k in cond}),
+                  "%s has no refill of the form `if bits_in_buffer() < K { refill }` with constant K >= MAX_BITS + MAX_DIST_EXTRA_BITS = 28 before "
+                  "the distance is decoded (found thresholds %s): a 15-bit distance code with 13 extra bits can read past the buffered bits"
+                  % (short, sorted({k + 1 for _, k in cond}) or "none"), where(fn, max(cond, key=lambda x: x[1])[0].line if cond else None))
+    return n
+
+
 def run(ck):
     P = prog("K1")
     ck.configs.add("K1")
@@ -392,6 +421,13 @@ def run(ck):
     margins(ck, P)
     sane_who(ck, P)
     len_modes(ck, P)
+    # the validations whose absence turns corrupt input into an out-of-range index / window read (abort or stale bytes):
+    # symbol counts, repeat overflow, distance beyond the bytes held by the window - in every decoder copy of inflate
+    nsafe = decoders.check_rejections(ck, P, "ATOM/safety-rejection",
+                                      only_impls={decoders.DISPATCH, decoders.LEN_AND_FRIENDS, decoders.FAST},
+                                      only_names={"hlit-hdist", "rep16-overflow", "rep17-overflow", "rep18-overflow", "dist-window"})
+    ck.floor("ATOM/safety-rejection", nsafe, 7)
+    fast_refill(ck, P, "GUARD/fast-bit-budget")
     roots = decode_roots(P)
     ck.floor("ABORT:roots", len(roots), 25)
     api = {f.path for f in P.fns.values() if f.crate == "zlib_rs" and f.j.get("vis") == "Public" and P.callers_of(f.path) & set(roots)}
